@@ -5,6 +5,8 @@ bin/props/c10.py calls system_common.run, for the binding demonstration and for 
   python3 bin/dev/system2_demo.py C10 [quick|thorough] [seed]      (VERIF_REPO=/tmp/wt-... for a mutated tree)
   options: --corrupt N:STEP:FIELD   corrupt one expected observation field of behaviour N before the replay
            --all                    absorb the failures of every owner (not only the given property)
+           --keep DIR               copy the replay files written by the run into DIR
+           --replay FILE            re-run the behaviour of one replay file (system2_common.replay)
 
 Replay files and evidence go to a scratch directory (never to /verif/replays or /verif/evidence, which belong
 to the registered checks).  Exit code: 1 violation, 0 clean / known finding only, 2 inconclusive."""
@@ -15,8 +17,13 @@ import vlib
 from props import system2_common as s2
 
 
+def opt(name):
+    return sys.argv[sys.argv.index(name) + 1] if name in sys.argv else None
+
+
 def main():
-    args = [a for a in sys.argv[1:] if not a.startswith("--")]
+    skip = {opt(n) for n in ("--corrupt", "--keep", "--replay")}
+    args = [a for a in sys.argv[1:] if not a.startswith("--") and a not in skip]
     prop = args[0] if args else "C10"
     tier = args[1] if len(args) > 1 else "quick"
     seed = int(args[2]) if len(args) > 2 else int(os.environ.get("VERIF_SEED", "1"))
@@ -48,16 +55,33 @@ def main():
             open(infile, "w").writelines(lines)
             return real_replay(engine, infile, **kw)
         vlib.replay = corrupted
+    if opt("--replay"):
+        try:
+            rc = s2.replay(prop, opt("--replay"), json.load(open(opt("--replay"))))
+        except vlib.Inconclusive as e:
+            print("INCONCLUSIVE:", e)
+            rc = 2
+        print("exit", rc)
+        sys.exit(rc)
     try:
         v = vlib.Verdict(prop, tier, seed)
         if "--all" in sys.argv:
             v.known_defs = [k for k in vlib.load_known() if k.get("status") == "open"]
         cov, scen = s2.run(v, prop, tier, seed)
+        if opt("--keep"):
+            import shutil
+            os.makedirs(opt("--keep"), exist_ok=True)
+            for viol in v.violations:
+                if viol["replay"]:
+                    shutil.copy(viol["replay"], opt("--keep"))
+        lines = [json.loads(l) for l in open(scen)]
         for viol in v.violations:
             if viol["replay"]:
                 doc = json.load(open(viol["replay"]))
                 det = doc.get("detail") or {}
-                print("  -> %s step %s (scale %s): %s" % (viol["sig"], det.get("step"), det.get("scale"), det.get("command")))
+                idx = [i for i, l in enumerate(lines) if l == doc.get("scenario")]
+                print("  -> %s: behaviour %s step %s (scale %s): %s" % (viol["sig"], idx[0] if idx else "?", det.get("step"), det.get("scale"),
+                                                                      (det.get("command") or "").replace(vlib.scratch(), "")))
         print(json.dumps({k: cov[k] for k in ("behaviours", "passed", "owned_failures", "failures_owned_elsewhere",
                                               "ended_on_another_admissible_merge_base", "exhaustive")}))
         rc = v.finish("model_checking", cov, ["driver run, not a registered check"])
